@@ -111,6 +111,7 @@ static void runCase(uint64_t caseId, Rng rng, size_t nsteps, unsigned mode, std:
 		clocks.emplace_back(cfg);
 	}
 	size_t nder = rng.below(4);
+	std::vector<std::pair<hlim::Clock*, ClockConfig>> derivedCfgs; // what deriveClock was asked for (unset = inherited from the parent)
 	for (size_t i = 0; i < nder; i++) {
 		size_t parent = rng.below(clocks.size());
 		ClockConfig cfg;
@@ -124,7 +125,9 @@ static void runCase(uint64_t caseId, Rng rng, size_t nsteps, unsigned mode, std:
 		if (rng.chance(1, 3)) cfg.resetActive = pickAct();
 		// applyConfig insists on: resetType != NONE || initializeRegs
 		if (cfg.resetType && *cfg.resetType == hlim::RegisterAttributes::ResetType::NONE && !rng.chance(1, 8)) cfg.initializeRegs = true;
+		if (rng.chance(1, 6)) cfg.phaseSynchronousWithParent = rng.chance(1, 2);
 		clocks.push_back(clocks[parent].deriveClock(cfg));
+		derivedCfgs.push_back({clocks.back().getClk(), cfg});
 		if (mode == 1) {
 			// keep the derived clock edge-aligned with the pin it ends up sharing: the clock signal starts high iff the pin source is
 			// rising-edge triggered, so on a shared pin only the source's edge (falling for a dual-edge source) or both edges are aligned
@@ -133,6 +136,7 @@ static void runCase(uint64_t caseId, Rng rng, size_t nsteps, unsigned mode, std:
 			if (src != c && c->getTriggerEvent() != hlim::Clock::TriggerEvent::RISING_AND_FALLING) {
 				bool srcRising = src->getTriggerEvent() == hlim::Clock::TriggerEvent::RISING;
 				c->setTriggerEvent(srcRising ? hlim::Clock::TriggerEvent::RISING : hlim::Clock::TriggerEvent::FALLING);
+				derivedCfgs.back().second.triggerEvent = c->getTriggerEvent(); // set explicitly
 			}
 		}
 	}
@@ -193,6 +197,13 @@ static void runCase(uint64_t caseId, Rng rng, size_t nsteps, unsigned mode, std:
 		  << " trig=" << trigNames[(int) c->getTriggerEvent()] << " psync=" << c->getPhaseSynchronousWithParent()
 		  << " rst=" << "SAN"[(int) ra.resetType] << " act=" << (ra.resetActive == hlim::RegisterAttributes::Active::HIGH ? 'H' : 'L')
 		  << " nodes=" << !c->getClockedNodes().empty() << '\n';
+	}
+	for (auto &[c, cfg] : derivedCfgs) {
+		o << "ccfg " << c->getId() << " name=" << (cfg.name ? *cfg.name : std::string("~")) << " rname=" << (cfg.resetName ? *cfg.resetName : std::string("~"))
+		  << " trig=" << (cfg.triggerEvent ? std::string(1, trigNames[(int) *cfg.triggerEvent]) : std::string("~"))
+		  << " psync=" << (cfg.phaseSynchronousWithParent ? std::string(*cfg.phaseSynchronousWithParent ? "1" : "0") : std::string("~"))
+		  << " rst=" << (cfg.resetType ? std::string(1, "SAN"[(int) *cfg.resetType]) : std::string("~"))
+		  << " act=" << (cfg.resetActive ? std::string(*cfg.resetActive == hlim::RegisterAttributes::Active::HIGH ? "H" : "L") : std::string("~")) << '\n';
 	}
 	for (auto &cp : circuit.getClocks()) {
 		hlim::Clock *c = cp.get();
